@@ -7,13 +7,15 @@ from vh_refsem import build, same_obj
 
 def roundtrip(types, desc, cfg):
     cls = load_class(desc["module"], desc["name"])
-    tree = gen_unit(types, desc["instrs"], desc["name"], cfg, False, "roundtrip")
+    tree = gen_unit(types, desc["instrs"], desc["name"], cfg, desc["entry"], "roundtrip")
     obj = build(types, cls, desc["instrs"], tree)
     w = EoWriter()
+    w.string_sanitization_mode = desc["entry"]
     cls.serialize(w, obj)
     data = w.to_bytearray()
     observe("wire", data)
     r = EoReader(data)
+    r.chunked_reading_mode = desc["entry"]
     back = cls.deserialize(r)
     same_obj(types, desc["instrs"], back, tree, desc["name"])
     check(r.remaining == 0, "deserializer consumes exactly the bytes written")
